@@ -52,6 +52,10 @@ def trees(draw):
                 "prov": False if draw(st.integers(0, 7)) == 0 else None,
                 "cache_scope": draw(st.sampled_from([None, None, None, "CSE", "NONE"])),
                 "kids": kids}
+        if not spec["optexpr"] and draw(st.integers(0, 4)) == 0:
+            # an option whose value is a CONTAINER holding an expression (no top-level expression
+            # among this job's options): evaluated all the same
+            spec["optnest"] = {draw(st.sampled_from(KEYS)): draw(st.integers(30, 34))}
         return spec
 
     tree = node(draw(st.integers(1, 3)))
@@ -91,6 +95,8 @@ def to_ast(spec):
         o["export"] = spec["export"]
     if spec["optexpr"]:
         o["optexpr"] = {k: ["task", ["lit", ["int", v]], {}, {}] for k, v in spec["optexpr"].items()}
+    if spec.get("optnest"):
+        o["optexpr"] = {k: ["list", [["task", ["lit", ["int", v]], {}, {}]]] for k, v in spec["optnest"].items()}
     return ["task", body, {}, o]
 
 
@@ -107,6 +113,7 @@ def expected(case) -> dict:
         call = dict(spec["export"])
         call.update(spec["options"])
         call.update(spec["optexpr"])
+        call.update({k: [v] for k, v in (spec.get("optnest") or {}).items()})
         if spec["prov"] is False:
             call["prov"] = False
         if spec["cache_scope"]:
@@ -174,7 +181,7 @@ def oracle_one(ctx: Ctx, case, full_case):
     if r.kind != "ok":
         from vf.core import redun_frame
 
-        if case["tree"]["optexpr"] and isinstance(r.payload, KeyError) and "record_job_start" in (redun_frame(r.payload) or ""):
+        if (case["tree"]["optexpr"] or case["tree"].get("optnest")) and isinstance(r.payload, KeyError) and "record_job_start" in (redun_frame(r.payload) or ""):
             raise Violation("root-task-option-expression", "the root call has an expression-valued option: its option job and the "
                             f"root job both claim the execution record ({r.payload!r} from record_job_start)", case)
         raise Violation("run-failed", f"run ended {r.kind}: {r.payload!r}", case)
